@@ -17,8 +17,9 @@ META = {
                   "alignment relative to the 64 KiB digest unit (all 71 straddling placements) with the 16 bytes before and 128 bytes after it flipped; signed archives "
                   "> 64 KiB whose (signature) entry straddles the unit boundary; >= 2000 distinct signed messages verified intact; intact-only verification (every digest valid, every table loaded, every file reads back "
                   "and passes SFileVerifyFile) over version-4 archives with 1022..2049 files, V3/V4 x compress_tables on/off x 1/4/23/60/150 files, archives that start "
-                  "behind a 512/1024-byte prefix (also swept: signed V1 and V4), and content-length classes from EMPTY to 3.x sectors in every (version, attributes, "
-                  "sector-crc, encrypted+compressed) configuration.",
+                  "behind a 512/1024-byte prefix (also swept: signed V1 and V4), content-length classes from EMPTY to 3.x sectors in every (version, attributes, "
+                  "sector-crc, encrypted+compressed) configuration, and archives with attributes that went through an in-place MutableArchive session (add, replace, "
+                  "remove, rename; V1..V4; two of them also swept).",
     "level_note": "Single contiguous alterations only (one byte, 4 bytes, or two sectors swapped). Archives are 3-4 KB with one single-unit, one 3-sector (compressed/raw/compressed) and one stored 3-sector file; "
                   "a stored (uncompressed) multi-sector file is included since 9cf2783. Signed archives: V1 without sector CRCs "
                   "(signature patched in by the harness with generate_weak_signature). A digest of the v4 header counts as a detector only if it verified on the "
@@ -38,7 +39,9 @@ def sig(b):
     regs = [rec.get("region", ""), rec.get("region_end", "")]
     hit = "multi" if any(x.startswith("multi_") for x in regs) else \
           "single" if any(x in ("single_raw", "single_comp", "listfile") for x in regs) else regs[0]
-    s = {"ev": rec.get("ev"), "why": why, "hit": hit, "ver": cfg.get("ver"), "crc": cfg.get("crc"), "attrs": cfg.get("attrs"),
+    label = str(r.get("case", ""))
+    session = label.endswith("-session") or "-s1-" in label
+    s = {"ev": rec.get("ev"), "why": why, "hit": hit, "session": session, "ver": cfg.get("ver"), "crc": cfg.get("crc"), "attrs": cfg.get("attrs"),
          "enc": cfg.get("enc"), "comp": cfg.get("comp"), "signed": cfg.get("signed"),
          "region": rec.get("region", rec.get("place", "")), "region_end": rec.get("region_end", "")}
     return s
